@@ -166,3 +166,56 @@ void h_flush_step(void)
   if (st == 1) { IORA_CANARY("h_flush_step: block flushed"); }
   if (st == 2) { IORA_CANARY("h_flush_step: switched to Async"); }
 }
+
+/* ---- step 1 of setReadMode: every transition except Sync->Async, in one critical section (status: 1 = `return true`, 2 = falls through
+ * to the ordered flush).  Clause Q1 is the property's flush clause read at this switch: once the mode is Async the I/O thread hands later
+ * bytes straight to the callback, so at the moment the mode BECOMES Async (under the lock) no byte may still be buffered.
+ * Monitor invariant K assumed at entry and re-established: mode == Async (or no entry) && !closed ==> the buffer, if any, is empty. ---- */
+#define MODE_OF(im) ((im).readModes.present ? (im).readModes.wval : ReadMode_Async)
+void h_mode_step1(void)
+{
+  Impl impl; SyncReceiveBuffer wbuf, obuf, fresh; iora_engine eng; Impl *self = &impl;
+  SessionId W = nondet_u64(), sid = nondet_u64();
+  wire(&impl, &wbuf, &obuf, &fresh, &eng, W);
+  ReadMode mode = nondet_u8(); __CPROVER_assume(mode <= ReadMode_Disabled);
+  __CPROVER_assume(!impl.receiveBuffers.present || SRB_INV(&wbuf, G_arrived, impl.shuttingDown, impl.config.maxSyncReceiveBuffer));
+  __CPROVER_assume(!(impl.receiveBuffers.present && MODE_OF(impl) == ReadMode_Async && !wbuf.closed) || wbuf.data.hi == wbuf.data.lo);     /* K */
+  Impl impl0 = impl; SyncReceiveBuffer w0 = wbuf; ReadMode old = MODE_OF(impl); bool present0 = impl.receiveBuffers.present;
+
+  int st = setReadMode_step1(self, sid, mode);
+  IORA_CANARY("h_mode_step1: returns");
+  __CPROVER_assert(!impl.syncMutex.held && !impl.callbackMutex.held, "LK5 no Transport lock is held at the end of step 1");
+  __CPROVER_assert(G_cb_calls == 0 && impl.shuttingDown == impl0.shuttingDown && impl.activeFlushes == impl0.activeFlushes && impl.activeReceives == impl0.activeReceives, "F1 no callback, teardown state untouched");
+  __CPROVER_assert(SAME_BUF(wbuf, w0), "F2 an existing buffer is never modified by a mode switch");
+  if (sid != W)
+  {
+    IORA_CANARY("h_mode_step1: other session");
+    __CPROVER_assert(impl.readModes.present == impl0.readModes.present && impl.readModes.wval == impl0.readModes.wval && impl.receiveBuffers.present == present0 && impl.receiveBuffers.wval == &wbuf, "F3 mode and buffer entry of every other session are untouched");
+    return;
+  }
+  __CPROVER_assert((st == 1 || st == 2) && (st != 2 || mode == ReadMode_Async) && (!(old == ReadMode_Sync && mode == ReadMode_Async) || st == 2), "P1 the Sync->Async switch is always deferred to the ordered flush; only a switch to Async is ever deferred");
+  __CPROVER_assert(st != 2 || (impl.readModes.present == impl0.readModes.present && impl.readModes.wval == impl0.readModes.wval && impl.receiveBuffers.present == present0 && G_made == 0), "P2 ... leaving the mode (so the I/O thread keeps buffering / dropping) and the buffer map untouched");
+  __CPROVER_assert(st != 1 || (impl.readModes.present && impl.readModes.wval == mode), "P3 every other switch takes effect in this critical section");
+  __CPROVER_assert(st != 1 || mode != ReadMode_Sync || (impl.receiveBuffers.present && impl.receiveBuffers.wval == (present0 ? &wbuf : &fresh)), "P4 switching to Sync: a buffer is registered under the same lock (an existing one is kept)");
+  __CPROVER_assert(st != 1 || mode == ReadMode_Sync || (impl.receiveBuffers.present == present0 && G_made == 0), "P5 otherwise the buffer map is untouched");
+  __CPROVER_assert(!(st == 1 && mode == ReadMode_Async) || !present0 || w0.closed || w0.data.hi == w0.data.lo, "Q1 the mode becomes Async only when no byte is still buffered (else later bytes overtake the buffered ones, which never reach the callback)");
+  if (mode == ReadMode_Async && old == ReadMode_Disabled) { IORA_CANARY("h_mode_step1: Disabled -> Async"); }
+  if (st == 1 && mode == ReadMode_Sync && !present0) { IORA_CANARY("h_mode_step1: buffer created"); }
+  if (st == 2) { IORA_CANARY("h_mode_step1: deferred to flush"); }
+}
+
+#ifdef IORA_SEARCH
+/* SEARCH for Q1: the violating state is reached by one fixed history: Sync, 2 bytes arrive, setReadMode(Disabled), setReadMode(Async).
+ * SCEN selects that scripted history in replay.cpp. */
+void h_search_q1(void)
+{
+  static Impl impl; static SyncReceiveBuffer wbuf, obuf, fresh; static iora_engine eng; Impl *self = &impl;
+  size_t SCEN = nondet_size_t(); __CPROVER_assume(SCEN == 2);
+  wire(&impl, &wbuf, &obuf, &fresh, &eng, 7);
+  impl.shuttingDown = 0; impl.config.maxSyncReceiveBuffer = 1024; G_arrived = 2;
+  impl.readModes.present = 1; impl.readModes.wval = ReadMode_Disabled; impl.receiveBuffers.present = 1;
+  wbuf.data.lo = 0; wbuf.data.hi = 2; wbuf.hasData = 1; wbuf.closed = 0; wbuf.overflow = 0; wbuf.flushing = 0; wbuf.waiters = 0;
+  int st = setReadMode_step1(self, 7, ReadMode_Async);
+  __CPROVER_assert(!(st == 1) || wbuf.data.hi == wbuf.data.lo, "Q1 the mode becomes Async only when no byte is still buffered (else later bytes overtake the buffered ones, which never reach the callback)");
+}
+#endif
